@@ -22,6 +22,10 @@ Init ==
      \/ \E r \in [1..4 -> -2..3] :
           in = [kind |-> "stats", obs |-> [i \in 1..4 |-> [f |-> TRUE, v |-> 10]], pred |-> [i \in 1..4 |-> [f |-> TRUE, v |-> 10 - r[i]]],
                 p |-> 1, long |-> FALSE, drift |-> TRUE]
+     \* CalTRACK hourly ModelMetrics: six timestamps, at most one missing on either side (at the same or at different timestamps)
+     \/ \E mo \in 0..6, mq \in 0..6, ord \in {"time", "reversed"} :
+          in = [kind |-> "calstats", obs |-> [i \in 1..6 |-> IF i = mo THEN [f |-> FALSE, v |-> 0] ELSE [f |-> TRUE, v |-> 3 + ((5 * i) % 7) + i]],
+                pred |-> [i \in 1..6 |-> IF i = mq THEN [f |-> FALSE, v |-> 0] ELSE [f |-> TRUE, v |-> 4 + ((3 * i) % 5) + 2 * i]], p |-> 1, order |-> ord]
      \/ \E cv \in GateClasses, pn \in GateClasses : in = [kind |-> "gate", cv |-> cv, pn |-> pn]
      \/ \E f \in {"hourly", "daily", "billing"}, nm \in {"good", "other", "poor", "tgaps"} : in = [kind |-> "stored", fam |-> f, name |-> nm, prior |-> "none"]     \* tgaps: hours whose temperature had to be filled while the usage is real
      \/ \E k \in 1..Len(TQuantiles) : TQuantiles[k].dof \in 2..10 /\ in = [kind |-> "tq", conf |-> TQuantiles[k].conf, tail |-> TQuantiles[k].tail, dof |-> TQuantiles[k].dof]
